@@ -135,6 +135,21 @@ after the reset cannot dirty the cursor -/
 theorem cursor_written_at_parse_time_only : cursorWriters.all (fun w => parseTimeFn w.2.1) = true := by
   decide +kernel
 
+/-- **frame, all attributes**: outside `__init__`, the only attributes of a parser object that any code
+of the package assigns or mutates (plain/augmented/subscript assignment, `for` target, mutating method
+call) are the six modelled cursor attributes — plus `tokenizer` (lazily built from the class symbol
+table by `XPath1Parser.parse`), and `schema` / `symbol_table` / `function_signatures` / `tokenizer`
+written by the explicit registration API (`bind_parser`, `external_function`, `schema_constructor`),
+which no `nud`/`led`/`advance` code calls.  So the cursor model carries ALL per-instance state a parse
+can change: the frame assumption of `history_independent` is discharged on the live code. -/
+theorem parser_state_frame :
+    parserAttrWriters.all (fun w =>
+      ["source", "tokens", "next_match", "token", "next_token", "parse_arguments"].contains w.2.2 ||
+      (w.2.1 == "parse" && w.2.2 == "tokenizer") ||
+      (["bind_parser", "external_function", "schema_constructor"].contains w.2.1 &&
+        ["schema", "symbol_table", "function_signatures", "tokenizer"].contains w.2.2)) = true := by
+  decide +kernel
+
 /-- `source` is assigned by `Parser.__init__` and `Parser.parse` only -/
 theorem source_written_by_parse_only :
     (cursorWriters.filter (·.2.2 == "source")).all
